@@ -518,3 +518,28 @@ Proof.
   - vm_compute. intros l H1 H2. intuition subst; discriminate.
   - eexists. split; [vm_compute; reflexivity|]. split; [vm_compute; reflexivity|vm_compute; discriminate].
 Qed.
+
+(* ------------------------------------------------------------------ operation sequences *)
+(* run a sequence of operations *)
+Fixpoint steps (spec_ren : alist -> str -> str) (h : heap) (xs : list hop) : option heap :=
+  match xs with
+  | [] => Some h
+  | x :: t => match step spec_ren h x with Some (h', _) => steps spec_ren h' t | None => None end
+  end.
+(* no operation of the sequence is applied to an object of q (judged on the heap it runs in) *)
+Fixpoint never_applied_to (spec_ren : alist -> str -> str) (q : loc) (h : heap) (xs : list hop) : Prop :=
+  match xs with
+  | [] => True
+  | x :: t => (forall l, In l (objs h q) -> ~ In l (owned h (target x)))
+              /\ match step spec_ren h x with Some (h', _) => never_applied_to spec_ren q h' t | None => True end
+  end.
+
+(* the observable state of an object only changes through operations applied to IT *)
+Theorem mutation_isolated_seq spec_ren q v : forall xs h h',
+  steps spec_ren h xs = Some h' -> pobs h q = Some v -> never_applied_to spec_ren q h xs -> pobs h' q = Some v.
+Proof.
+  induction xs as [|x xs IH]; intros h h' E Hv Hn; cbn in *.
+  - injection E as <-. exact Hv.
+  - destruct (step spec_ren h x) as [[h1 r]|] eqn:Es; [|discriminate]. destruct Hn as [H1 H2].
+    apply (IH h1 h' E); [|exact H2]. eapply mutation_isolated; eauto.
+Qed.
